@@ -18,6 +18,8 @@ Step ==
   /\ l' = l + 1 /\ tid' = tid
   /\ IF Ev.ev = "mutate"
      THEN /\ last' = [e \in Encoders |-> NoText] /\ fails' = fails
+     ELSE IF Ev.ev = "other"            \* unrelated activity in the process (another dump with other options, another encoder
+     THEN /\ last' = last /\ fails' = fails   \* instance being configured): must not matter, so nothing is reset
      ELSE LET out == [text |-> Ev.text, exc |-> Ev.exc]
               c1 == IF DumpAllowed(Ev.enc, Ev.pre, Ev.post) THEN <<>> ELSE F("argument-altered")
               c2 == IF last[Ev.enc] = NoText \/ last[Ev.enc] = out THEN <<>> ELSE F("not-repeatable")
